@@ -44,6 +44,11 @@ def gen(tier, rng, reconnect_values=(0,)):
                     cbs = dict(allret)
                     cbs[cb] = mode
                     yield {"callbacks": cbs, "attempts": [{"evs": tr + end}]}
+                    if mode == "raise" and cb != "on_error":
+                        # a raising callback with NO on_error handler: the exception is logged and delivery continues
+                        cbs2 = dict(cbs)
+                        del cbs2["on_error"]
+                        yield {"callbacks": cbs2, "attempts": [{"evs": tr + end}]}
     # 4. refused / rejected, no reconnect
     for a in ({"refuse": True}, {"status": 404}, {"status": 500}):
         yield {"callbacks": dict(allret), "attempts": [a]}
